@@ -685,7 +685,7 @@ def inter_st():
             j = _job(kind, v, draw(st.integers(0, 63)))
             if kind == "query":
                 if draw(st.integers(0, 4)) == 0:
-                    j["fault"] = [draw(st.integers(0, 3))] + draw(st.sampled_from([["silence"], ["garble", 0x12], ["garble", None]]))
+                    j["fault"] = [draw(st.integers(0, 3))] + draw(st.sampled_from([["silence"], ["garble", 0x12], ["garble", None], ["noobject"]]))
                 j["level"] = draw(st.sampled_from([0, 1, 170, 254, 255]))
             jobs.append(j)
         sched = draw(st.lists(st.integers(0, n - 1), max_size=14))
@@ -872,7 +872,7 @@ def _shard(arg):
             for v in (0x0000, 0x00FF, 0x0100, 0x1234, 0xFE01, 0xFEFF, 0xFF00, 0xFFFF):
                 go({"kind": "query", "selector": sel, "value": v}, True)
                 for step in (0, 1, 2, 3):
-                    for fk in (["silence"], ["garble", 0x12], ["garble", None]):
+                    for fk in (["silence"], ["garble", 0x12], ["garble", None], ["noobject"]):
                         go({"kind": "query", "selector": sel, "value": v, "fault": [step] + fk}, True)
                         res.label("query-fault:step%d" % step)
         res.label("query", 1)
